@@ -51,6 +51,10 @@ static void fresh(void)
       if (system(cmd)) { fprintf(stderr, "setup failed\n"); exit(3); }
     }
   }
+  /* inc9: alias chains written target-first and target-last */
+  snprintf(cmd, sizeof cmd, "printf '/ENCODING none\\nz_t STRING v\\n/ALIAS z_a1 z_t\\n/ALIAS z_a2 z_a1\\n/ALIAS z_a3 z_a2\\n/ALIAS z_a4 z_a3\\n"
+      "/ALIAS z_b4 z_b3\\n/ALIAS z_b3 z_b2\\n/ALIAS z_b2 z_b1\\n/ALIAS z_b1 z_t\\n/ALIAS z_c2 z_c1\\n/ALIAS z_c3 z_c2\\n/ALIAS z_c1 z_t\\n' > '%s/inc9'", dir);
+  if (system(cmd)) { fprintf(stderr, "setup failed\n"); exit(3); }
   D = gd_open(dir, GD_RDWR);
   if (gd_error(D) || D->n_fragment != 2) { fprintf(stderr, "open failed %d\n", gd_error(D)); exit(3); }
 }
@@ -209,6 +213,27 @@ static void dump(void)
   }
 }
 
+static void dump_aliases(void)
+{
+  /* gd_naliases / gd_aliases of every field that some alias resolves to */
+  unsigned u, v;
+  for (u = 0; u < D->n_entries; ++u) {
+    const gd_entry_t *E = D->entry[u];
+    int used = 0;
+    if (E->field_type == GD_ALIAS_ENTRY) continue;
+    for (v = 0; v < D->n_entries; ++v)
+      if (D->entry[v]->field_type == GD_ALIAS_ENTRY && D->entry[v]->e->entry[0] == E) used = 1;
+    if (!used) continue;
+    {
+      unsigned n = gd_naliases(D, E->field), k = 0;
+      const char **l = gd_aliases(D, E->field);
+      printf("al %s %u :", show(E->field), n);
+      if (l == NULL) printf(" NULL(%d)", gd_error(D)); else for (; l[k]; ++k) printf(" %s", show(l[k]));
+      printf("\n");
+    }
+  }
+}
+
 static void dump_match(void)
 {
   /* gd_match_entries without a regex: the per-fragment view of the table */
@@ -305,13 +330,13 @@ int main(int argc, char **argv)
             } else snprintf(full, sizeof full, "%s", name);
             if (ty == 16) {
               unsigned char c2[2]; c2[0] = (unsigned char)val; c2[1] = 7;
-              if (gd_put_carray(D, full, GD_UINT8, c2)) { printf("> putval-failed %d\n", gd_error(D)); dump(); dump_match(); continue; }
+              if (gd_put_carray(D, full, GD_UINT8, c2)) { printf("> putval-failed %d\n", gd_error(D)); dump(); dump_aliases(); dump_match(); continue; }
             } else if (ty == 17) {
               char sv[64]; snprintf(sv, sizeof sv, "s%lld", val);
-              if (gd_put_string(D, full, sv)) { printf("> putval-failed %d\n", gd_error(D)); dump(); dump_match(); continue; }
+              if (gd_put_string(D, full, sv)) { printf("> putval-failed %d\n", gd_error(D)); dump(); dump_aliases(); dump_match(); continue; }
             } else {
               char sv[64]; const char *pp = sv; snprintf(sv, sizeof sv, "s%lld", val);
-              if (gd_put_sarray(D, full, &pp)) { printf("> putval-failed %d\n", gd_error(D)); dump(); dump_match(); continue; }
+              if (gd_put_sarray(D, full, &pp)) { printf("> putval-failed %d\n", gd_error(D)); dump(); dump_aliases(); dump_match(); continue; }
             }
           }
           if (r == 0 && ty == 15) {
@@ -325,7 +350,7 @@ int main(int argc, char **argv)
               gd_entry_t *P = _GD_FindField(D, name, sl - name, D->entry, D->n_entries, 1, NULL);
               if (P) snprintf(full, sizeof full, "%s%s", P->field, sl); else snprintf(full, sizeof full, "%s", name);
             } else snprintf(full, sizeof full, "%s", name);
-            if (gd_put_constant(D, full, GD_INT64, &v)) { printf("> putconst-failed %d\n", gd_error(D)); dump(); dump_match(); continue; }
+            if (gd_put_constant(D, full, GD_INT64, &v)) { printf("> putconst-failed %d\n", gd_error(D)); dump(); dump_aliases(); dump_match(); continue; }
           }
         }
         printf("> r %d\n", r);
@@ -405,6 +430,7 @@ int main(int argc, char **argv)
       printf("reference %s\n", show(r));
     }
     dump();
+    dump_aliases();
     dump_match();
   }
   gd_discard(D);
